@@ -460,6 +460,13 @@ pub fn explore(ctx: &mut Ctx, label: &str) {
                     via_jax(ctx, &f, &o, false, "interleaved rows, optional columns filled");
                     via_jax(ctx, &f, &o, true, "interleaved rows, optional columns filled (transitive loader)");
                 }
+                // rows that are not annotations of an OMIM / ORPHA disease: another database (DECIPHER), a NOT-qualified
+                // row of a disease that has positive rows, a NOT-qualified twin of every positive row, comments
+                {
+                    let mut o = JaxOpts::default();
+                    o.distractors = vec![jax::Distractor::DecipherRow, jax::Distractor::NotRowOmimExisting, jax::Distractor::NotRowOrphaOnly, jax::Distractor::NotRowTwinsFirst, jax::Distractor::HpoaCommentMiddle];
+                    via_jax(ctx, &f, &o, false, "interleaved rows; DECIPHER row, NOT rows, comment line");
+                }
                 // repeated rows: every row twice (adjacent), and the whole file twice (distant repeats)
                 let mut twice: Vec<AnnFact> = vec![];
                 for a in &f.anns {
